@@ -172,6 +172,15 @@ class Check:
                     viol.append(o)
             elif o["status"] == "harness_error":
                 self.harness_errors.append(o)
+            for kid in o.get("known_present", ()) if o["status"] in ("known", "violation") else ():
+                ent = [k for k in self.known if k["id"] == kid]
+                if ent:
+                    self.known_hit.setdefault(kid, (ent[0], []))[1].append(o)
+                elif o["status"] == "known":
+                    # a finding the file does not list (or lists as fixed) must be reported
+                    o["status"] = "violation"
+                    o["detail"] = "finding %s is not listed as open in known_findings.jsonl: %s" % (kid, o.get("detail", ""))
+                    viol.append(o)
         # ---- report ---------------------------------------------------------------------------------
         os.makedirs(os.path.join(ROOT, "replays"), exist_ok=True)
         os.makedirs(os.path.join(ROOT, "evidence"), exist_ok=True)
@@ -196,7 +205,7 @@ class Check:
                                  if o["status"] != "ok"]), f, indent=0)
         n_total = len(self.outcomes)
         n_inc = by.get("inconclusive", 0) + by.get("gap", 0)
-        decided = by.get("ok", 0) + len(viol) + sum(len(v[1]) for v in self.known_hit.values())
+        decided = by.get("ok", 0) + by.get("known", 0) + len(viol) + sum(len(v[1]) for v in self.known_hit.values())
         problems = []
         if self.harness_errors:
             problems.append("%d harness errors, e.g. %s" % (len(self.harness_errors), self.harness_errors[0].get("detail")))
